@@ -32,7 +32,7 @@ USTACK, THINFO = 8, 1
 def generate(rng, index, tier):
     if index % 1009 == 23:
         # one very deep sample: as many data records as a count the source names (or 30000), frames = 4 per record
-        nrec = worlds.dict_size(rng, 70000 if tier == 'quick' else 270000) or 30000
+        nrec = worlds.dict_size(rng, 270000) or 30000
         rows = [[0x1000 + 4 * i + j for j in range(4)] for i in range(nrec)]
         ops = [worlds.op_imap(rng, rng.randbytes(16).hex(), 0x1000), worlds.op_sample(rng, flags=8, thd=None, uhdr=(1, 4 * nrec - rng.randrange(0, 3)), udata=rows)]
         return {'threads': [{'tid': 500, 'ops': ops}], 'schedule': [], 'via_file': False, 't0': 0x100001, 'faults': [], 'requests': 1, 'huge': nrec}
@@ -62,6 +62,11 @@ def generate(rng, index, tier):
         r = rng.random()
         if r < 0.6:
             ops.append(worlds.op_imap(rng, im['uuid'], im['addr']))
+            if rng.chance(0.12):
+                um = worlds.op_imap(rng, im['uuid'], im['addr'])
+                um['name'] = 'DYLD_uuid_unmap_a'      # unmapped again (same identity, same address): not an announcement, and the
+                um['a'] = list(ops[-1]['a'])          # statement knows no way of forgetting one
+                ops.append(um)
         else:
             # inside a launch window, as a map or a shared-cache map, with unrelated records around
             shared = rng.chance(0.4)
@@ -90,14 +95,19 @@ def generate(rng, index, tier):
                 nframes = rng.pick([(1 << 32) + rng.randrange(0, 4), 1 << 32, 1 << 63, (1 << 64) - 1, (1 << 31) + 1])
             flags = rng.pick([USTACK, USTACK, USTACK | THINFO, USTACK | 4, THINFO, 0, USTACK | 0x100])
             uhdr = (rng.randrange(0, 512), nframes) if rng.chance(0.88) else None
+            hdr_tail = [rng.randrange(0, 9), rng.randrange(0, 9)] if rng.chance(0.25) else [0, 0]      # the header's other two words: not the count
             extra = []
             if rng.chance(0.3):
                 extra.append(worlds.op_single(rng, 'MACH_MKRUNNABLE'))
             if rng.chance(0.3):
                 near = [k for k, _v in worlds.catalog()['undecoded'] if (k >> 16) in (0x2502, 0x2501, 0x2500)] or [0x25020014]
                 extra.append({'k': 'raw', 'id': rng.pick(near), 'q': 0, 'a': rng.words()})   # kernel-stack header/data, stack error, ... (named, not decoded)
-            ops.append(worlds.op_sample(rng, flags=flags, thd=(77, rng.pick([500 + si, 400, 501 - si, 31337])) if rng.chance(0.4) else None, uhdr=uhdr,
-                                        udata=rows, extra=extra))
+            smp = worlds.op_sample(rng, flags=flags, thd=(77, rng.pick([500 + si, 400, 501 - si, 31337])) if rng.chance(0.4) else None, uhdr=uhdr,
+                                   udata=rows, extra=extra)
+            for sub in smp['in']:
+                if sub.get('name') == 'PERF_STK_UHdr':
+                    sub['a'][2], sub['a'][3] = hdr_tail
+            ops.append(smp)
             if rng.chance(0.2):
                 ops.append(worlds.op_single(rng, 'MACH_MKRUNNABLE'))
         threads.append({'tid': 500 + si, 'ops': ops})
